@@ -796,6 +796,129 @@ def projection_pairs(rng, A):
 
 
 # --------------------------------------------------------------------------------------
+# SOURCE descriptions: every fill convention (fill value, start index) incl. large positive sentinels, large
+# index values; the verdict is on the source element lists (different lists ⇒ unequal grids)
+# --------------------------------------------------------------------------------------
+
+
+def build_source(ux, src):
+    """cheap node arrays (np.linspace) + a handful of faces given as a SOURCE table in the dialect (fill, start)"""
+    import xarray as xr
+
+    n = int(src["n_node"])
+    lon = np.linspace(-179.0, 179.0, n)
+    lat = np.linspace(-80.0, 80.0, n)
+    table = np.array(src["table"], dtype=np.dtype(src.get("dtype", "int64")))
+    fill, start = src["fill"], int(src["start"])
+    if src["via"] == "topology":
+        return ux.Grid.from_topology(node_lon=lon, node_lat=lat, face_node_connectivity=table, fill_value=fill, start_index=start)
+    ds = xr.Dataset()
+    ds["Mesh2"] = xr.DataArray(0, attrs=dict(cf_role="mesh_topology", topology_dimension=2,
+                                             node_coordinates="Mesh2_node_x Mesh2_node_y", face_node_connectivity="Mesh2_face_nodes"))
+    ds["Mesh2_node_x"] = xr.DataArray(lon, dims=["nMesh2_node"], attrs=dict(standard_name="longitude"))
+    ds["Mesh2_node_y"] = xr.DataArray(lat, dims=["nMesh2_node"], attrs=dict(standard_name="latitude"))
+    attrs = dict(cf_role="face_node_connectivity", start_index=start)
+    if fill is not None:
+        attrs["_FillValue"] = fill
+    ds["Mesh2_face_nodes"] = xr.DataArray(table, dims=["nMesh2_face", "nMaxMesh2_face_nodes"], attrs=attrs)
+    return ux.Grid.from_dataset(ds)
+
+
+def judge_source(ctx, ux, kind, sa, sb):
+    inp = dict(mode="source", kind=kind, a=sa, b=sb)
+    try:
+        a, b = build_source(ux, sa), build_source(ux, sb)
+    except Exception as e:  # noqa: BLE001
+        ctx.hit(f"constructor-raised:source:{kind}:{type(e).__name__}")
+        return
+    outs, errs = [], []
+    for op, x, y in (("eq", a, b), ("ne", a, b), ("eq", b, a), ("ne", b, a)):
+        r, e = cmp(op, x, y)
+        outs.append(r)
+        if e:
+            errs.append(f"{op}: {e}")
+    tag = f"fill={sa['fill']}/start={sa['start']}/via={sa['via']}"
+    ctx.case(("source", kind, sa, sb), nontrivial=True,
+             sample=dict(kind=kind, a=sa, b=sb, outputs=outs) if sa["table"] != sb["table"] and len(ctx.samples) < 4 and sa["n_node"] > 1000 else None)
+    ctx.hit("source:" + kind)
+    ctx.hit("source-dialect:" + tag)
+    ctx.hit("source-n_node>=100000" if sa["n_node"] >= 100000 else "source-n_node-small")
+    if errs:
+        ctx.fail(f"C20/source/raises/{tag}", "comparison does not return a bool: " + errs[0], inp, dict(outputs=outs, errors=errs), None, ["total"])
+        return
+    stA = [[int(x) for x in r] for r in np.asarray(a.face_node_connectivity.values)]
+    stB = [[int(x) for x in r] for r in np.asarray(b.face_node_connectivity.values)]
+    hf = sa["fill"] is not None
+    ans = ctx.driver.ask("C20.source", b01(hf), sa["fill"] if hf else 0, sa["start"], common.enc_rows(sa["table"]),
+                         common.enc_rows(sb["table"]), common.enc_rows(stA), common.enc_rows(stB), *[b01(x) for x in outs])
+    valid, v, mA, mB = ans.split(";")
+    assert valid == "1", "generator produced a source table that is not valid in its dialect"
+    if v != "ok":
+        clauses = v.split(" ", 1)[1].split(",")
+        same = sa["table"] == sb["table"]
+        what = (f"two source descriptions in the dialect ({tag}) " + ("that are identical" if same else "that differ in a connectivity entry")
+                + f" give == {outs[0]}/{outs[2]}, != {outs[1]}/{outs[3]}; stored tables {'are the same' if stA == stB else 'differ'}")
+        impl = dict(outputs=outs, stored_a=stA, stored_b=stB)
+        model = dict(model_stored_a=mA, model_stored_b=mB, expected_eq=same)
+        if set(clauses) <= {"reader_corresponds", "reader_injective_on_connectivity"}:
+            # the outputs of == / != are right for these sources; only the tie reader ↔ reader model broke (C01's business)
+            ctx.mismatch("C20/" + "+".join(clauses), inp, impl, model)
+        else:
+            ctx.fail(f"C20/source/{'+'.join(clauses)}/{tag}", what, inp, impl, model, clauses)
+
+
+def source_pairs(rng, thorough):
+    """(kind, srcA, srcB): identical, highest index ↔ padding, index ↔ index ± 1 near the sentinel, sentinel − 1 as a real index"""
+    out = []
+    BIG = 100000
+    dialects = []
+    for via in ("topology", "ugrid"):
+        dialects += [
+            (via, BIG, BIG, 0),  # one-past-the-end sentinel, 0-based
+            (via, BIG, BIG + 1, 1),  # one-past-the-end sentinel, 1-based
+            (via, 12, 2 ** 31 - 1, 0), (via, 12, INT_FILL, 0), (via, 12, -1, 0), (via, 12, 0, 1), (via, 12, 12, 0), (via, 12, 999999, 0),
+            (via, BIG, -1, 0), (via, BIG, INT_FILL, 0), (via, BIG, 999999, 0), (via, BIG, 2 ** 31 - 1, 0),
+        ]
+    dialects += [("topology", 999999, 999999, 0), ("ugrid", 999999, 999999, 0)]  # sentinel 999999 on 999999 nodes
+    if not thorough:
+        big = [d for d in dialects if d[1] >= BIG]
+        small = [d for d in dialects if d[1] < BIG]
+        dialects = rng.sample(small, 6) + [d for d in big if d[2] in (d[1], d[1] + 1)] + rng.sample([d for d in big if d[2] not in (d[1], d[1] + 1)], 3)
+    for via, n, fill, start in dialects:
+        hi = n - 1  # highest 0-based index
+
+        def enc(faces, w=4):
+            return [[v + start for v in f] + [fill] * (w - len(f)) for f in faces]
+
+        def src(faces, dtype="int64"):
+            return dict(via=via, n_node=n, fill=fill, start=start, table=enc(faces), dtype=dtype)
+
+        lows = rng.sample(range(0, min(n - 12, 50)), 3) if n > 20 else [0, 1, 2]
+        near = [hi - k for k in (0, 1, 2, 3, 5, 9, 10, 11)]
+        base = [[lows[0], lows[1], near[1], near[0]], [lows[2], near[3], near[2]], [near[5], near[6], near[7]]]
+        A = src(base)
+        out.append(("identical", A, src(base)))
+        # highest index <-> padding (quad <-> triangle)
+        out.append(("highest-index-vs-padding", A, src([base[0][:3]] + base[1:])))
+        # sentinel-1 ... sentinel-11 as real indices <-> padding
+        for k, idx in ((3, 2), (9, 0)):
+            f2 = [list(f) for f in base]
+            real = f2[2 if idx == 0 else 1]
+            if len(real) == 3:
+                out.append((f"near-sentinel-{k}-vs-padding", src(base[:1] + [base[1] + [hi - 4]] + base[2:]),
+                            src(base[:1] + [base[1]] + base[2:])))
+                break
+        out.append(("index-near-sentinel-dropped", src([base[0], base[1], [near[5], near[6], near[7], near[4]]]), A))
+        # index <-> index ± 1 near the sentinel
+        out.append(("index+1-near-sentinel", src([[lows[0], lows[1], near[2], near[1]]] + base[1:]), A))
+        out.append(("index-1-near-sentinel", src(base[:1] + [[lows[2], near[3], near[4]]] + base[2:]), A))
+        out.append(("low-index+1", src([[lows[0] + 1 if lows[0] + 1 not in (lows[1],) else lows[0] + 2, lows[1], near[1], near[0]]] + base[1:]), A))
+        if thorough or rng.random() < 0.3:
+            out.append(("identical/int32", src(base, "int32"), src(base)) if abs(fill) < 2 ** 31 else ("identical", A, src(base)))
+    return out
+
+
+# --------------------------------------------------------------------------------------
 # which variables of the source dataset are xarray coordinates — on EVERY dimension a compared variable has
 # --------------------------------------------------------------------------------------
 
@@ -1035,6 +1158,9 @@ def run_input(ctx, ux, inp):
     if mode == "pair":
         run_pair(ctx, ux, inp.get("kind", "replay"), inp["a"], inp["b"], tuple(inp.get("touch", ())))
         return
+    if mode == "source":
+        judge_source(ctx, ux, inp.get("kind", "replay"), inp["a"], inp["b"])
+        return
     a = build(ux, inp["a"])
     oa = observe(a)
     if mode == "refl":
@@ -1066,7 +1192,10 @@ def run(ctx):
                 "placements, float32 storage, coordinates stored as data variables / xarray coordinates, after derived attributes "
                 "were computed; all ordered pairs of a small family (every combination of differing fields); g==g, copies, "
                 "non-Grid operands; pairs that agree under a PROJECTION of the arrays (same flattened connectivity in another "
-                "(n_face, width) shape incl. trailing fills; identical and one-entry-mutated pairs whose SOURCE DATASETS differ in which "
+                "(n_face, width) shape incl. trailing fills; pairs of SOURCE descriptions in every fill convention (fill = n_node, "
+                "n_node+1 1-based, 999999, 2^31-1, INT_FILL, -1, 0 with start 1; from_topology and the UGRID reader) with 12 … 999999 cheap "
+                "nodes and faces on the highest indices: identical, highest index ↔ padding, index ± 1 near the sentinel — verdict on the "
+                "source element lists, stored tables compared with the Lean reader model; identical and one-entry-mutated pairs whose SOURCE DATASETS differ in which "
                 "variables are xarray coordinates, on every dimension of a compared variable (node_lon/lat as coordinates, index / extra "
                 "coordinates on n_node, face_lon/face_lat via set_coords, index coordinate on n_face with equal or other values, on "
                 "n_max_face_nodes, scalar coordinates), through from_dataset and the UGRID reader; permuted / reversed rows, transposed table, same multiset, same sum, "
@@ -1081,6 +1210,9 @@ def run(ctx):
         "grids use the canonical dimension names (Variable.equals compares dims); how node_lon/node_lat are stored (data variables / "
         "xarray coordinates) is observed and sent to the driver but is not an input of the repaired model (eq_ignores_coord_storage)",
         "Python falls back to Grid.__eq__ for `x == g` when x is a builtin (reflected comparison)",
+        "correspondence clause `reader is injective on connectivity`: distinct valid source tables of one dialect are stored as distinct "
+        "tables (theorem procTable_inj about the reader model; C01's topology_roundtrip / ugrid_roundtrip / pad_inj give the same); the real "
+        "reader is tied to the model per source pair (`reader_corresponds`)",
         "the backing state (numpy / dask names and chunks) is NOT an input of the Spec or of the value-level model; theorem "
         "backing_irrelevant: with faithful dask names xarray's lazy shortcut cannot change the result — faithfulness of the observed "
         "names is evaluated by Lean for every pair (dask's tokenisation itself is not proved)",
@@ -1116,6 +1248,9 @@ def run(ctx):
                 judge_refl(ctx, r[0], r[1], da, m.kind + "+nan")
                 if mi % 4 == 0:
                     judge_copy(ctx, ux, r[0], r[1], da, m.kind + "+nan")
+    # 3a. source descriptions in every fill convention, large index values
+    for kind, sa, sb in source_pairs(rng, thorough):
+        judge_source(ctx, ux, kind, sa, sb)
     # 3b. the same questions in every backing state a public call can put the grids in
     small_scope_chunked(ctx, ux)
     for mi, m in enumerate(ms[:: ctx.n(2, 4)]):
